@@ -200,6 +200,9 @@ func logSession(level int, password string, scenario int, extraSecret string) (l
 			return [][]byte{enc(g)}
 		case scenario == 3 && k == 0: // silence
 			return nil
+		case scenario >= 5 && k == 0: // the device answers the authentication with an error code (busy, try again, …)
+			code := uint32(scenario - 5)
+			return [][]byte{enc(frameBytes(itemBytes(uint32(rscp.RSCP_AUTHENTICATION), 0xff, []byte{byte(code), byte(code >> 8), byte(code >> 16), byte(code >> 24)}), true, 1, 2))}
 		case scenario == 4 && k == 0: // an echoing peer: the authentication request comes back as the "reply"
 			echo := plainFrame([]rscp.Message{{Tag: rscp.RSCP_REQ_AUTHENTICATION, DataType: rscp.Container, Value: []rscp.Message{
 				{Tag: rscp.RSCP_AUTHENTICATION_USER, DataType: rscp.CString, Value: "loguser"},
@@ -284,7 +287,7 @@ func init() {
 			}
 		}
 		for _, lvl := range levels {
-			for scenario := 0; scenario < 5; scenario++ {
+			for scenario := 0; scenario < 5+12; scenario++ {
 				pw := g.secret()
 				passphrase := g.secret()
 				log, window, wb, res := logSession(lvl, pw, scenario, passphrase)
